@@ -268,6 +268,16 @@ SecondActs ==
         THEN { [op |-> "NewRec", h |-> "b1", k |-> "entity", via |-> "new_record",
                 id |-> <<NamePL("ex", <<"r">>)>>, formals |-> <<>>, extras |-> <<>>] }
         ELSE {})
+  \* follow-up modifications of the first record through the other mutators
+  \cup (LET f == hist[NSetup + 1] IN
+        IF f.op = "NewRec" /\ f.h = "d1"
+        THEN { [op |-> "AddType", r |-> [c |-> "d1", i |-> 1], v |-> [t |-> "name", n |-> NameQN("prov", ProvNS, <<"Plan">>)]],
+               [op |-> "AddAttrs", r |-> [c |-> "d1", i |-> 1], form |-> "pairs",
+                pairs |-> << <<NameQN("ex", A, <<"attr2">>), [t |-> "int", v |-> "7"]>> >>] }
+             \cup (IF f.k = "activity"
+                   THEN { [op |-> "SetTime", r |-> [c |-> "d1", i |-> 1], start |-> <<>>, end |-> <<[t |-> "dt", v |-> "t2"]>>] }
+                   ELSE {})
+        ELSE {})
   \* the first record once more, same identifier, with only its mandatory formal arguments
   \* (records that share an identifier and differ in which optional arguments they carry)
   \cup (LET f == hist[NSetup + 1] IN
